@@ -180,6 +180,11 @@ var twiceLines = []string{"SEX M", "SEX F", "SEX U", "SEX", "NAME a /b/", "NAME"
 	"RESI", "PLAC a,b", "_UID 0123456789ABCDEF0123456789ABCDEF", "_FID x", "_FSFTID x", "FORM x", "LATI N1", "LONG W1", "MAP", "NICK x", "FONE x", "ROMN x", "SOUR x", "SOUR @S1@",
 	"TYPE x", "OCCU x", "NOTE", "NOTE v", "FAMS @F1@", "FAMC @F1@", "_X", "_X y"}
 
+// recordLines: lines below (and after) a family record. FamilyNode attaches its own lines, role lines know their
+// family, and a file may repeat a member line byte for byte, give it sub-lines, or leave its value empty.
+var recordLines = []string{"1 HUSB @I1@\n", "1 WIFE @I1@\n", "1 CHIL @I1@\n", "1 CHIL @I2@\n", "1 CHIL\n", "2 NOTE a\n", "2 _FREL Natural\n", "1 NOTE a\n",
+	"1 MARR\n", "2 DATE 1 Jan 1900\n", "0 @F2@ FAM\n", "0 @F1@ FAM\n", "0 @I1@ INDI\n", "1 FAMS @F1@\n", "1 SEX M\n", "2 CHIL @I1@\n", "1 chil @I1@\n"}
+
 var optCombos = [4][2]bool{{false, false}, {true, false}, {false, true}, {true, true}}
 
 func runInputX(r *vlib.Rec, data string) { runInput(r, data) }
@@ -279,6 +284,20 @@ func run(tier, unit string, r *vlib.Rec) {
 				runInput(r, fmt.Sprintf(shape, ln))
 			}
 		}
+	case "records": // records:<n>: every sequence of n lines over the record alphabet (records that attach their own lines: FAM, INDI)
+		n, _ := strconv.Atoi(p[1])
+		for idx := lo; idx < hi; idx++ {
+			var sb strings.Builder
+			for _, d := range gen.Digits(idx, len(recordLines), n) {
+				sb.WriteString(recordLines[d])
+				r.Count("recline:" + strings.TrimSpace(recordLines[d]))
+			}
+			r.Count("records")
+			runInput(r, "0 @F1@ FAM\n"+sb.String())
+			if idx%int64(len(recordLines)) == 0 { // the same below an individual and with no record in front (once per prefix)
+				runInput(r, "0 @I9@ INDI\n"+sb.String())
+			}
+		}
 	case "bytes": // bytes:<L>:<bom>
 		L, _ := strconv.Atoi(p[1])
 		bom := p[2] == "1"
@@ -329,6 +348,13 @@ func plan(tier string) []string {
 	}
 	out = append(out, vlib.Chunks("chain", 41, 4)...)
 	out = append(out, vlib.Chunks("twice", int64(len(twiceLines)), 6)...)
+	maxRec := 4
+	if tier == "thorough" {
+		maxRec = 5
+	}
+	for n := 1; n <= maxRec; n++ {
+		out = append(out, vlib.Chunks(fmt.Sprintf("records:%d", n), gen.Pow(len(recordLines), n), 3000)...)
+	}
 	for L := 0; L <= maxL; L++ {
 		for _, bom := range []string{"0", "1"} {
 			if bom == "1" && L > maxL-1 {
@@ -359,7 +385,7 @@ func main() {
 	vlib.Main(&vlib.Check{
 		ID:    "C02",
 		Level: "model_checking",
-		Rule: "inputs: (a) every level walk of n lines over levels {0,1,2,3,4,10} with default lines and with every choice of <=k lines deviating in one field (32 deviations: xrefs, tags, values, terminators, separators, unparsable lines); " +
+		Rule: "inputs: (r) every sequence of <=4 (thorough 5) lines over a 17-line record alphabet below a FAM record (member lines repeated byte for byte, with sub-lines, without value, at level 2, in lower case, next family/individual record) and the same below an INDI record; (a) every level walk of n lines over levels {0,1,2,3,4,10} with default lines and with every choice of <=k lines deviating in one field (32 deviations: xrefs, tags, values, terminators, separators, unparsable lines); " +
 			"(b) every byte string of length <=L over {0,1,space,@,A,LF,CR,0xFF} with/without BOM; each x 4 option combinations. Every input is run on the reference decoder and on the real decoder. " +
 			"Non-trivial = accepted by the implementation with >=2 nodes; distinct by (options, bytes).",
 		Assumptions: []string{
@@ -371,7 +397,7 @@ func main() {
 		Run:    run,
 		Replay: replay,
 		Required: func(string) []string {
-			req := []string{"outcome:accept", "outcome:both-reject", "bytes", "bom", "chain", "chain>=10", "twice"}
+			req := []string{"outcome:accept", "outcome:both-reject", "bytes", "bom", "chain", "chain>=10", "twice", "records"}
 			for _, d := range gen.LineDeviations {
 				req = append(req, "dev:"+d.Name)
 			}
